@@ -5,7 +5,7 @@ B    := build
 CC   := clang
 CXX  := clang++
 
-LIB_SRCS := $(shell find $(REPO)/src/avtp -name '*.c' | sort)
+LIB_SRCS := $(shell find $(REPO)/src -name '*.c' | sort)
 REPO_HDRS := $(shell find $(REPO)/include $(REPO)/examples -name '*.h' | sort)
 EX := $(REPO)/examples
 
@@ -17,7 +17,7 @@ REPO_CFLAGS_COMMON := -std=gnu99 -g -fno-omit-frame-pointer -U_FORTIFY_SOURCE -D
 NET_SAN := -fsanitize=address,bounds,integer-divide-by-zero -fno-sanitize-recover=all
 NET_REPO_CFLAGS := $(REPO_CFLAGS_COMMON) -O1 -fno-inline $(NET_SAN) $(COV) -I$(EX)
 NETB := $(B)/net
-NET_LIB_OBJS := $(patsubst $(REPO)/src/avtp/%.c,$(NETB)/lib/%.o,$(LIB_SRCS))
+NET_LIB_OBJS := $(patsubst $(REPO)/src/%.c,$(NETB)/lib/%.o,$(LIB_SRCS))
 NET_WRAPS := socket bind ioctl setsockopt close recv sendto read write poll clock_gettime clock_nanosleep sleep timerfd_create timerfd_settime rand exit
 NET_WRAPFLAGS := $(foreach w,$(NET_WRAPS),-Wl,--wrap=$(w))
 
@@ -43,7 +43,7 @@ $(eval $(call EXRULE,crf-listener,crf/crf-listener.c,crf_listener_main))
 $(eval $(call EXRULE,crf-listener-b,crf/crf-listener.c,crf_listener_b_main))
 $(eval $(call EXRULE,common,common/common.c,unused_main_2))
 
-$(NETB)/lib/%.o: $(REPO)/src/avtp/%.c $(REPO_HDRS) Makefile | dirs
+$(NETB)/lib/%.o: $(REPO)/src/%.c $(REPO_HDRS) Makefile | dirs
 	@mkdir -p $(dir $@)
 	$(CC) $(NET_REPO_CFLAGS) -c $< -o $@
 
@@ -56,9 +56,9 @@ $(NETB)/sim/%.o: %.cc $(SIM_HDRS) Makefile | dirs
 	$(CXX) $(SIM_CXXFLAGS) -fsanitize=address -c $< -o $@
 
 $(NETB)/marker_begin.o: sim/marker_begin.c | dirs
-	$(CC) -O1 -c $< -o $@
+	$(CC) -O1 -fno-common -c $< -o $@
 $(NETB)/marker_end.o: sim/marker_end.c | dirs
-	$(CC) -O1 -c $< -o $@
+	$(CC) -O1 -fno-common -c $< -o $@
 
 # second copy of the example programs at -O0 (locals live on the stack: uninitialised pointers read the 0xA5 fill)
 NET_REPO_CFLAGS_O0 := $(REPO_CFLAGS_COMMON) -O0 $(NET_SAN) $(COV) -I$(EX)
@@ -99,8 +99,8 @@ rec: $(B)/rec_sim
 # ---------------------------------------------------------------- reent engine (C16): -O0, trace-loads/stores, no ASan
 REENTB := $(B)/reent
 REENT_REPO_CFLAGS := $(REPO_CFLAGS_COMMON) -O0 -fno-builtin -fsanitize-coverage=trace-pc-guard,pc-table,trace-loads,trace-stores
-REENT_LIB_OBJS := $(patsubst $(REPO)/src/avtp/%.c,$(REENTB)/lib/%.o,$(LIB_SRCS))
-$(REENTB)/lib/%.o: $(REPO)/src/avtp/%.c $(REPO_HDRS) Makefile | dirs
+REENT_LIB_OBJS := $(patsubst $(REPO)/src/%.c,$(REENTB)/lib/%.o,$(LIB_SRCS))
+$(REENTB)/lib/%.o: $(REPO)/src/%.c $(REPO_HDRS) Makefile | dirs
 	@mkdir -p $(dir $@)
 	$(CC) $(REENT_REPO_CFLAGS) -c $< -o $@
 REENT_BIND_OBJS := $(patsubst $(GEN)/%.c,$(REENTB)/%.o,$(BIND_SRCS))
@@ -118,13 +118,46 @@ $(REENTB)/sim/%.o: %.cc $(wildcard sim/*.h spec/*.h bindings/*.h engines/reent/*
 	$(CXX) $(SIM_CXXFLAGS) -c $< -o $@
 $(REENTB)/marker_begin.o: sim/marker_begin.c | dirs
 	@mkdir -p $(REENTB)
-	$(CC) -O1 -c $< -o $@
+	$(CC) -O1 -fno-common -c $< -o $@
 $(REENTB)/marker_end.o: sim/marker_end.c | dirs
 	@mkdir -p $(REENTB)
-	$(CC) -O1 -c $< -o $@
+	$(CC) -O1 -fno-common -c $< -o $@
 $(B)/reent_sim: $(REENTB)/marker_begin.o $(REENT_LIB_OBJS) $(REENTB)/marker_end.o $(REENT_BIND_OBJS) $(REENT_DRV_OBJS) $(REENT_SIM_OBJS)
 	$(CXX) -no-pie -Wl,--wrap=memcpy -Wl,--wrap=memset -Wl,--wrap=memmove $(foreach w,strtok rand srand localtime gmtime ctime asctime strerror setlocale,-Wl,--wrap=$(w)) -o $@ $(REENTB)/marker_begin.o $(REENT_LIB_OBJS) $(REENTB)/marker_end.o $(REENT_BIND_OBJS) $(REENT_DRV_OBJS) $(REENT_SIM_OBJS) -lm
 reent: $(B)/reent_sim
+
+# ---------------------------------------------------------------- second build of the library: the repository's default toolchain (gcc)
+# Code that is conditional on the compiler, and anything gcc's optimiser derives from the headers (attributes, inline definitions),
+# is invisible to a clang-only build. reentg_sim / recg_sim run the same engines against the library and the bindings compiled by gcc -O2.
+GCC := gcc
+GLIBB := $(B)/glib
+GCC_REPO_CFLAGS := -std=gnu99 -O2 -g -fno-omit-frame-pointer -fno-common -U_FORTIFY_SOURCE -D_FORTIFY_SOURCE=0 -I$(REPO)/include -w
+GCC_LIB_OBJS := $(patsubst $(REPO)/src/%.c,$(GLIBB)/lib/%.o,$(LIB_SRCS))
+$(GLIBB)/lib/%.o: $(REPO)/src/%.c $(REPO_HDRS) Makefile | dirs
+	@mkdir -p $(dir $@)
+	$(GCC) $(GCC_REPO_CFLAGS) -fsanitize-coverage=trace-pc -c $< -o $@
+GCC_BIND_OBJS := $(patsubst $(GEN)/%.c,$(GLIBB)/%.o,$(BIND_SRCS))
+$(GLIBB)/bind_%.o: $(GEN)/bind_%.c bindings/bind.h $(REPO_HDRS) | dirs
+	@mkdir -p $(GLIBB)
+	$(GCC) $(GCC_REPO_CFLAGS) -Ibindings -c $< -o $@
+GCC_DRV_OBJS := $(GLIBB)/drv_can.o $(GLIBB)/drv_canbrief.o $(GLIBB)/drv_vss.o
+$(GLIBB)/drv_%.o: engines/reent/drv_%.c engines/reent/drivers.h $(REPO_HDRS) | dirs
+	@mkdir -p $(GLIBB)
+	$(GCC) $(GCC_REPO_CFLAGS) -Iengines/reent -c $< -o $@
+REENTG_SIM_OBJS := $(patsubst %.cc,$(GLIBB)/reent/%.o,$(REENT_SIM_SRCS))
+$(GLIBB)/reent/%.o: %.cc $(wildcard sim/*.h spec/*.h bindings/*.h engines/reent/*.h) Makefile | dirs
+	@mkdir -p $(dir $@)
+	$(CXX) $(SIM_CXXFLAGS) -DREENT_VARIANT_GCC=1 -c $< -o $@
+$(B)/reentg_sim: $(REENTB)/marker_begin.o $(GCC_LIB_OBJS) $(REENTB)/marker_end.o $(GCC_BIND_OBJS) $(GCC_DRV_OBJS) $(REENTG_SIM_OBJS)
+	$(CXX) -no-pie -Wl,--wrap=memcpy -Wl,--wrap=memset -Wl,--wrap=memmove $(foreach w,strtok rand srand localtime gmtime ctime asctime strerror setlocale,-Wl,--wrap=$(w)) -o $@ $(REENTB)/marker_begin.o $(GCC_LIB_OBJS) $(REENTB)/marker_end.o $(GCC_BIND_OBJS) $(GCC_DRV_OBJS) $(REENTG_SIM_OBJS) -lm
+reent: $(B)/reentg_sim
+RECG_SIM_OBJS := $(patsubst %.cc,$(GLIBB)/rec/%.o,$(REC_SIM_SRCS))
+$(GLIBB)/rec/%.o: %.cc $(wildcard sim/*.h spec/*.h bindings/*.h) Makefile | dirs
+	@mkdir -p $(dir $@)
+	$(CXX) $(SIM_CXXFLAGS) -fsanitize=address -DREC_VARIANT_GCC=1 -c $< -o $@
+$(B)/recg_sim: $(NETB)/marker_begin.o $(GCC_LIB_OBJS) $(NETB)/marker_end.o $(GCC_BIND_OBJS) $(RECG_SIM_OBJS)
+	$(CXX) -no-pie -fsanitize=address -o $@ $(NETB)/marker_begin.o $(GCC_LIB_OBJS) $(NETB)/marker_end.o $(GCC_BIND_OBJS) $(RECG_SIM_OBJS) -lm
+rec: $(B)/recg_sim
 
 dirs:
 	@mkdir -p $(B) $(NETB)/lib $(NETB)/ex $(NETB)/sim evidence replays
